@@ -257,6 +257,18 @@ def shard(task):
                 return _ref.write([tiny(i, "emptyfile", b"") for i in range(n)], {})
             if name == "coders":       # one folder of n Copy coders chained by n-1 bind pairs
                 return _ref.write([tiny(0)], {"folders": [[0]], "chains": [[("COPY", {})] * n], "crc": "none"})
+            if name == "coders-x-files":   # one folder of n chained Copy coders holding n one-byte members (a product of two dimensions)
+                return _ref.write([tiny(i) for i in range(n)], {"folders": [list(range(n))], "chains": [[("COPY", {})] * n], "crc": "none"})
+            if name == "instreams-x-files":
+                # one coder declaring n input streams (a BCJ2-like topology; the method is never looked at), n pack sizes of 0,
+                # n one-byte members: about 4n bytes of header, nothing to decode
+                N = _ref.enc_number
+                folder = N(1) + bytes([0x14]) + b"\x03\x03\x01\x1b" + N(n) + N(1) + b"".join(N(i) for i in range(n))
+                streams = (b"\x06" + N(0) + N(n) + b"\x09" + N(0) * n + b"\x00"
+                           + b"\x07\x0b" + N(1) + b"\x00" + folder + b"\x0c" + N(n) + b"\x00"
+                           + b"\x08\x0d" + N(n) + b"\x09" + N(1) * (n - 1) + b"\x00")
+                hdr = b"\x01\x04" + streams + b"\x00" + b"\x05" + N(n) + b"\x00" + b"\x00"
+                return _ref.seal(b"", hdr)
             if name == "dupnames":     # n files whose names property is followed by n/4 further (3-byte) names properties
                 spec = ("scale-dup", [tiny(i, "emptyfile", b"") for i in range(n)], {}, None)
                 base = mutations.build(spec)
@@ -282,11 +294,28 @@ def shard(task):
                 best = dt if best is None else min(best, dt)
             return best
 
+        def mem_open(img):
+            import tracemalloc
+
+            tracemalloc.start()
+            try:
+                z = py7zr.SevenZipFile(io.BytesIO(img))
+                z.getnames()
+                z.close()
+            except MemoryError:
+                oom.append(len(img))  # (the shard runs under the +1 GiB address-space limit of this check)
+            except Exception:
+                pass
+            peak = tracemalloc.get_traced_memory()[1]
+            tracemalloc.stop()
+            return peak
+
         def superlinear(ts):
             return ts[2] > 0.5 and ts[1] / max(ts[0], 0.005) > 2.8 and ts[2] / max(ts[1], 0.005) > 2.8
 
         for name, n0 in arg:
             times, sizes = [], []
+            oom = []
             try:
                 imgs = [family(name, n) for n in (n0, 2 * n0, 4 * n0)]
                 sizes = [len(i) for i in imgs]
@@ -300,7 +329,17 @@ def shard(task):
                 sh.count("scale_family_not_buildable")
                 sh.note("scale_build_errors", f"{name}: {type(ex).__name__}: {str(ex)[:60]}")
                 continue
-            sh.case(("scale", name, n0), nontrivial=True, sample={"family": name, "n": [n0, 2 * n0, 4 * n0], "bytes": sizes, "open_seconds": [round(t, 3) for t in times]})
+            mems = [mem_open(i) for i in imgs]
+            sh.case(("scale", name, n0), nontrivial=True, sample={"family": name, "n": [n0, 2 * n0, 4 * n0], "bytes": sizes, "open_seconds": [round(t, 3) for t in times], "open_peak_MiB": [m >> 20 for m in mems]})
+            if oom:
+                sh.violation({"symptom": "memory-error", "input": "scale", "family": name},
+                             f"{name}: open() raises MemoryError under the +1 GiB limit for an input of {oom[0]} bytes (n0 = {n0})",
+                             {"kind": "scale", "family": name, "n0": n0, "tier": tier, "maxlen": maxlen})
+            # memory: the same criterion (both doublings cost more than 2.8x) on the traced peak, once it is no longer small
+            if mems[2] > (64 << 20) and mems[1] / max(mems[0], 1 << 20) > 2.8 and mems[2] / max(mems[1], 1 << 20) > 2.8:
+                sh.violation({"symptom": "superlinear-memory", "input": "scale", "family": name},
+                             f"{name}: open()+getnames() peaks at {mems[0] >> 20} / {mems[1] >> 20} / {mems[2] >> 20} MiB for inputs of {sizes[0]} / {sizes[1]} / {sizes[2]} bytes (n = {n0}, {2 * n0}, {4 * n0})",
+                             {"kind": "scale", "family": name, "n0": n0, "tier": tier, "maxlen": maxlen})
             sh.count("calls", 6)
             r1, r2 = times[1] / max(times[0], 0.005), times[2] / max(times[1], 0.005)
             # linear work doubles when the input doubles; both doublings costing more than 2.8x (and a measurable total) is super-linear
@@ -458,6 +497,7 @@ def main(tier="quick", seed=0, only=None):
     tasks += [("bombs", [c], 1, tier) for c in ("LZMA2", "LZMA", "BZIP2", "DEFLATE", "DEFLATE64", "ZSTD", "BROTLI", "PPMD")]
     n0 = 6000 if tier == "quick" else 20000
     tasks += [("scale", [(fam, n0)], 1, tier) for fam in ("folders", "files", "emptyfiles", "coders", "dupnames")]
+    tasks += [("scale", [(fam, n0 // 3)], 1, tier) for fam in ("coders-x-files", "instreams-x-files")]
     tasks += [("sighdr", [i], 1, tier) for i in range(min(len(bases), 4 if tier == "quick" else 12))]
     import random
 
@@ -505,7 +545,7 @@ def main(tier="quick", seed=0, only=None):
             "tokens set to {0,1,2^7k-1,2^7k,2^32-1,2^32,2^63-1,2^63,2^64-1}, every property id replaced by every id 0..26 and FF, every bit "
             "of every flag byte, bit vectors, CRCs, FILETIMEs, names, method ids, AES properties; for packed headers the same single-token mutations of the outer streams info that describes the packed header; two deviations: a count NUMBER set to 2^32 / 2^63-1 together with one property id replaced by End (thorough: by every id)), each section dropped / duplicated / "
             "swapped with its successor, FilesInfo property sizes left stale and re-fitted; all outer CRCs re-sealed (raw, LZMA- and "
-            f"AES-encoded headers); missing and 5 wrong passwords; scaling series: five families of headers large in one dimension (n folders and packed streams, n files in one folder, n stream-less files, n chained coders in one folder, n files with n/4 repeated name properties) at n, 2n, 4n - open() must not take more than 2.8x as long at both doublings; decompression bombs: for 8 codecs a packed stream expanding to 32 MiB in a folder that declares 10 bytes (peak Python-level memory, by tracemalloc, must stay within 64 x (input + declared output) + 16 MiB); the signature header's NextHeaderOffset / Size / CRC set to the boundary values with StartHeaderCRC re-sealed, each as a stream and as a real file opened by name. On every input that opens: every call sequence of length <= {maxlen} (byte-level damage: <= 2) over "
+            f"AES-encoded headers); missing and 5 wrong passwords; scaling series: seven families of headers large in one dimension (n folders and packed streams, n files in one folder, n stream-less files, n chained coders in one folder, n files with n/4 repeated name properties, n chained coders x n members of one folder, one coder with n input streams x n members) at n, 2n, 4n - open() must not take more than 2.8x as long at both doublings, nor may its traced peak memory (once above 64 MiB) grow by more than 2.8x at both; decompression bombs: for 8 codecs a packed stream expanding to 32 MiB in a folder that declares 10 bytes (peak Python-level memory, by tracemalloc, must stay within 64 x (input + declared output) + 16 MiB); the signature header's NextHeaderOffset / Size / CRC set to the boundary values with StartHeaderCRC re-sealed, each as a stream and as a real file opened by name. On every input that opens: every call sequence of length <= {maxlen} (byte-level damage: <= 2) over "
             f"{OPS} on one session (incl. extract twice without reset). Oracle: each call returns or raises an Exception within 8 s + 50 us/byte, "
             "no MemoryError with RLIMIT_AS = baseline + 1 GiB (a MemoryError is re-examined in a child process without the limit: raised again while the resident set grows by less than 256 MiB it is a codec's way of reporting corrupt data - counted, not judged), worker process alive. Non-trivial = the input got past open()."
         ),
